@@ -680,4 +680,18 @@ theorem delay_ending_arms_are_the_models (c : Unit.Cfg) (u : Unit.U) (hp : u.pha
     (try simp only [guardDelay, applyDelay])
     simp (config := { decide := true })
 
+/-- **the run loop tells the units what the model says it tells them** (dispatcher.rs `run`, the `match` on `handle_event`'s
+    response, as translated on this run): for every response the arm's broadcasts are exactly the model's `responseRequest`, each
+    made unconditionally — in particular a cancellation that begins because *reporting failed* is broadcast like one that a test
+    failure began (a unit sitting out a retry delay ends it on that request: `C07.cancellation_ends_the_delay`), and a shutdown
+    signal is broadcast with the arm's own request; no arm is listed twice -/
+theorem run_loop_broadcasts_are_the_models (r : Response) :
+    responseRow r ∈ Gen.responseBroadcasts ∧ (Gen.responseBroadcasts.map (·.1)).Nodup := by
+  refine ⟨?_, by decide⟩
+  cases r with
+  | cancelSignal q =>
+    have h : responseRow (.cancelSignal q) = ("Cancel/Signal", [("shutdown", true)]) := rfl
+    rw [h]; decide
+  | _ => decide
+
 end NextestModel.C10
